@@ -96,6 +96,16 @@ RecOps == {"NewRec", "AddAttrs", "SetTime", "AddType", "AddRecord"}
 (* prov:entity values on one membership record                                  *)
 Unclaimed(rec, x) == rec.k = "membership" /\ x.a = ProvU("entity")
 
+(* ... as far as a single call is concerned: the compatibility path is entered by a call that  *)
+(* names prov:collection (or several prov:entity values) itself, or continues on a record that  *)
+(* already holds several members.  A later call that only supplies ONE different prov:entity   *)
+(* for a membership holding one member is an ordinary conflict and is claimed.                *)
+UnclaimedCall(pre, sup, x) ==
+  /\ Unclaimed(pre, x)
+  /\ \/ Cardinality(AttrVals(pre, x.a)) > 1
+     \/ \E y \in sup : y.a = ProvU("collection")
+     \/ Cardinality({y \in sup : y.a = ProvU("entity")}) > 1
+
 (* every PROV formal attribute of every record holds at most one value *)
 C05_single(step) ==
   Cl("C05_single", AllRecs(step.post) # {},
@@ -127,7 +137,7 @@ TargetPost(step) == step.post.con[step.op.r.c].recs[step.op.r.i]
 C05_refuse(step) ==
   LET pre == TargetPre(step)
       sup == SuppliedTo(step)
-      conflict == \E x \in sup : /\ IsFormalU(x.a) /\ ~Unclaimed(pre, x)
+      conflict == \E x \in sup : /\ IsFormalU(x.a) /\ ~UnclaimedCall(pre, sup, x)
                                   /\ AttrVals(pre, x.a) # {}
                                   /\ \A w \in AttrVals(pre, x.a) : ~PEq(w, x.v)
   IN Cl("C05_refuse", step.op.op \in {"AddAttrs", "SetTime"} /\ conflict,
@@ -155,6 +165,26 @@ C05_accumulate(step) ==
         /\ grown(AttrSet(post), AttrSet(pre) \cup sup)
         /\ step.exc = "none" => grown({x \in sup : ~IsFormalU(x.a)}, AttrSet(post)))
 
+(* ... and is represented identically whatever the entry path: a supplied value that no equal   *)
+(* value of another type competes with (Python sets keep the first of 1 / 1.0 / True) is stored  *)
+(* exactly as its canonical form - Literal("1", xsd:double) as the float, not as the int 1      *)
+Uncontested(x, S) == \A w \in S : (w.a = x.a /\ PEq(w.v, x.v)) => w.v = x.v
+C05_exact(step) ==
+  LET isNew == step.op.op = "NewRec"
+      h == step.op.h
+      pairs == IF isNew
+               THEN [i \in 1..Len(step.op.formals) |-> <<NameQN("prov", ProvNS, <<step.op.formals[i][1]>>), step.op.formals[i][2]>>]
+                    \o step.op.extras
+               ELSE <<>>
+      sup  == IF isNew THEN Supplied(step, h, pairs) ELSE SuppliedTo(step)
+      pre  == IF isNew THEN {} ELSE AttrSet(TargetPre(step))
+      post == IF isNew THEN (IF Len(step.post.con[h].recs) = Len(step.pre.con[h].recs) + 1
+                             THEN AttrSet(step.post.con[h].recs[Len(step.post.con[h].recs)]) ELSE {})
+              ELSE AttrSet(TargetPost(step))
+      free == {x \in sup : ~IsFormalU(x.a) /\ Uncontested(x, pre \cup sup)}
+  IN Cl("C05_exact", step.op.op \in {"NewRec", "AddAttrs"} /\ step.exc = "none" /\ free # {},
+        free \subseteq post)
+
 (* construction: the new record holds exactly the canonical forms of what was supplied *)
 C05_new(step) ==
   LET h == step.op.h
@@ -176,6 +206,7 @@ C05Clauses(step) ==
        \cup (IF step.op.op \in {"AddAttrs", "SetTime"} THEN {C05_refuse(step), C05_idem(step)} ELSE {})
        \cup (IF step.op.op = "AddAttrs" THEN {C05_accumulate(step)} ELSE {})
        \cup (IF step.op.op = "NewRec" THEN {C05_new(step)} ELSE {})
+       \cup (IF step.op.op \in {"NewRec", "AddAttrs"} THEN {C05_exact(step)} ELSE {})
   ELSE {}
 
 -----------------------------------------------------------------------------
